@@ -202,6 +202,9 @@ Proofs/RegProofs.vos Proofs/RegProofs.vok Proofs/RegProofs.required_vos: Proofs/
 Proofs/SimCert.vo Proofs/SimCert.glob Proofs/SimCert.v.beautified Proofs/SimCert.required_vo: Proofs/SimCert.v Base/Prelude.vo Model/Sem.vo Proofs/SimProofs.vo Proofs/SimLink.vo Proofs/SimValidator.vo Base/MaskSet.vo Model/IR.vo Model/Liveness.vo Model/Cert.vo
 Proofs/SimCert.vio: Proofs/SimCert.v Base/Prelude.vio Model/Sem.vio Proofs/SimProofs.vio Proofs/SimLink.vio Proofs/SimValidator.vio Base/MaskSet.vio Model/IR.vio Model/Liveness.vio Model/Cert.vio
 Proofs/SimCert.vos Proofs/SimCert.vok Proofs/SimCert.required_vos: Proofs/SimCert.v Base/Prelude.vos Model/Sem.vos Proofs/SimProofs.vos Proofs/SimLink.vos Proofs/SimValidator.vos Base/MaskSet.vos Model/IR.vos Model/Liveness.vos Model/Cert.vos
+Proofs/LiveCert.vo Proofs/LiveCert.glob Proofs/LiveCert.v.beautified Proofs/LiveCert.required_vo: Proofs/LiveCert.v Base/Prelude.vo Base/MaskSet.vo Model/IR.vo Model/Liveness.vo Model/Cert.vo Proofs/LivenessTerm.vo Proofs/SimValidator.vo Proofs/SimCert.vo
+Proofs/LiveCert.vio: Proofs/LiveCert.v Base/Prelude.vio Base/MaskSet.vio Model/IR.vio Model/Liveness.vio Model/Cert.vio Proofs/LivenessTerm.vio Proofs/SimValidator.vio Proofs/SimCert.vio
+Proofs/LiveCert.vos Proofs/LiveCert.vok Proofs/LiveCert.required_vos: Proofs/LiveCert.v Base/Prelude.vos Base/MaskSet.vos Model/IR.vos Model/Liveness.vos Model/Cert.vos Proofs/LivenessTerm.vos Proofs/SimValidator.vos Proofs/SimCert.vos
 Proofs/SimLink.vo Proofs/SimLink.glob Proofs/SimLink.v.beautified Proofs/SimLink.required_vo: Proofs/SimLink.v Base/Prelude.vo Model/Sem.vo Proofs/SimProofs.vo Base/MaskSet.vo Model/IR.vo Model/Liveness.vo Proofs/LivenessProofs.vo
 Proofs/SimLink.vio: Proofs/SimLink.v Base/Prelude.vio Model/Sem.vio Proofs/SimProofs.vio Base/MaskSet.vio Model/IR.vio Model/Liveness.vio Proofs/LivenessProofs.vio
 Proofs/SimLink.vos Proofs/SimLink.vok Proofs/SimLink.required_vos: Proofs/SimLink.v Base/Prelude.vos Model/Sem.vos Proofs/SimProofs.vos Base/MaskSet.vos Model/IR.vos Model/Liveness.vos Proofs/LivenessProofs.vos
@@ -223,9 +226,9 @@ Proofs/TagsProofs.vos Proofs/TagsProofs.vok Proofs/TagsProofs.required_vos: Proo
 Props/C01.vo Props/C01.glob Props/C01.v.beautified Props/C01.required_vo: Props/C01.v Base/Prelude.vo Base/MaskSet.vo Model/IR.vo Model/RegFile.vo Model/Liveness.vo Model/Alloc.vo Model/Cleanup.vo Model/Pipeline.vo Model/Sem.vo Proofs/LivenessProofs.vo Proofs/AllocProofs.vo Proofs/SimProofs.vo Proofs/SimLink.vo Proofs/SimValidator.vo Proofs/LivenessTerm.vo Proofs/AllocLoop.vo Proofs/AllocCorrect.vo Proofs/AllocSim.vo Proofs/BindProofs.vo Model/CFG.vo Model/NodeSem.vo Proofs/CleanupSem.vo Proofs/CFGSem.vo Proofs/NodeMachine.vo Model/Cert.vo Proofs/SimCert.vo
 Props/C01.vio: Props/C01.v Base/Prelude.vio Base/MaskSet.vio Model/IR.vio Model/RegFile.vio Model/Liveness.vio Model/Alloc.vio Model/Cleanup.vio Model/Pipeline.vio Model/Sem.vio Proofs/LivenessProofs.vio Proofs/AllocProofs.vio Proofs/SimProofs.vio Proofs/SimLink.vio Proofs/SimValidator.vio Proofs/LivenessTerm.vio Proofs/AllocLoop.vio Proofs/AllocCorrect.vio Proofs/AllocSim.vio Proofs/BindProofs.vio Model/CFG.vio Model/NodeSem.vio Proofs/CleanupSem.vio Proofs/CFGSem.vio Proofs/NodeMachine.vio Model/Cert.vio Proofs/SimCert.vio
 Props/C01.vos Props/C01.vok Props/C01.required_vos: Props/C01.v Base/Prelude.vos Base/MaskSet.vos Model/IR.vos Model/RegFile.vos Model/Liveness.vos Model/Alloc.vos Model/Cleanup.vos Model/Pipeline.vos Model/Sem.vos Proofs/LivenessProofs.vos Proofs/AllocProofs.vos Proofs/SimProofs.vos Proofs/SimLink.vos Proofs/SimValidator.vos Proofs/LivenessTerm.vos Proofs/AllocLoop.vos Proofs/AllocCorrect.vos Proofs/AllocSim.vos Proofs/BindProofs.vos Model/CFG.vos Model/NodeSem.vos Proofs/CleanupSem.vos Proofs/CFGSem.vos Proofs/NodeMachine.vos Model/Cert.vos Proofs/SimCert.vos
-Props/C02.vo Props/C02.glob Props/C02.v.beautified Props/C02.required_vo: Props/C02.v Base/Prelude.vo Base/MaskSet.vo Model/IR.vo Model/Liveness.vo Proofs/LivenessProofs.vo Proofs/LivenessTerm.vo Proofs/LiveSpecProofs.vo Model/Sem.vo Proofs/SimProofs.vo Proofs/SimLink.vo Proofs/LiveSem.vo
-Props/C02.vio: Props/C02.v Base/Prelude.vio Base/MaskSet.vio Model/IR.vio Model/Liveness.vio Proofs/LivenessProofs.vio Proofs/LivenessTerm.vio Proofs/LiveSpecProofs.vio Model/Sem.vio Proofs/SimProofs.vio Proofs/SimLink.vio Proofs/LiveSem.vio
-Props/C02.vos Props/C02.vok Props/C02.required_vos: Props/C02.v Base/Prelude.vos Base/MaskSet.vos Model/IR.vos Model/Liveness.vos Proofs/LivenessProofs.vos Proofs/LivenessTerm.vos Proofs/LiveSpecProofs.vos Model/Sem.vos Proofs/SimProofs.vos Proofs/SimLink.vos Proofs/LiveSem.vos
+Props/C02.vo Props/C02.glob Props/C02.v.beautified Props/C02.required_vo: Props/C02.v Base/Prelude.vo Base/MaskSet.vo Model/IR.vo Model/Liveness.vo Proofs/LivenessProofs.vo Proofs/LivenessTerm.vo Proofs/LiveSpecProofs.vo Model/Sem.vo Proofs/SimProofs.vo Proofs/SimLink.vo Proofs/LiveSem.vo Model/Cert.vo Proofs/LiveCert.vo
+Props/C02.vio: Props/C02.v Base/Prelude.vio Base/MaskSet.vio Model/IR.vio Model/Liveness.vio Proofs/LivenessProofs.vio Proofs/LivenessTerm.vio Proofs/LiveSpecProofs.vio Model/Sem.vio Proofs/SimProofs.vio Proofs/SimLink.vio Proofs/LiveSem.vio Model/Cert.vio Proofs/LiveCert.vio
+Props/C02.vos Props/C02.vok Props/C02.required_vos: Props/C02.v Base/Prelude.vos Base/MaskSet.vos Model/IR.vos Model/Liveness.vos Proofs/LivenessProofs.vos Proofs/LivenessTerm.vos Proofs/LiveSpecProofs.vos Model/Sem.vos Proofs/SimProofs.vos Proofs/SimLink.vos Proofs/LiveSem.vos Model/Cert.vos Proofs/LiveCert.vos
 Props/C03.vo Props/C03.glob Props/C03.v.beautified Props/C03.required_vo: Props/C03.v Base/Prelude.vo Base/MaskSet.vo Model/IR.vo Model/RegFile.vo Model/RegSpec.vo Model/Liveness.vo Model/Alloc.vo Model/Cleanup.vo Model/Pipeline.vo Proofs/RegProofs.vo Proofs/AllocProofs.vo Proofs/AllocLoop.vo Proofs/AllocCorrect.vo Proofs/PipelineProofs.vo
 Props/C03.vio: Props/C03.v Base/Prelude.vio Base/MaskSet.vio Model/IR.vio Model/RegFile.vio Model/RegSpec.vio Model/Liveness.vio Model/Alloc.vio Model/Cleanup.vio Model/Pipeline.vio Proofs/RegProofs.vio Proofs/AllocProofs.vio Proofs/AllocLoop.vio Proofs/AllocCorrect.vio Proofs/PipelineProofs.vio
 Props/C03.vos Props/C03.vok Props/C03.required_vos: Props/C03.v Base/Prelude.vos Base/MaskSet.vos Model/IR.vos Model/RegFile.vos Model/RegSpec.vos Model/Liveness.vos Model/Alloc.vos Model/Cleanup.vos Model/Pipeline.vos Proofs/RegProofs.vos Proofs/AllocProofs.vos Proofs/AllocLoop.vos Proofs/AllocCorrect.vos Proofs/PipelineProofs.vos
